@@ -216,6 +216,49 @@ def sim_struct(ctx):
            'time index', f=f, node=(ret[-1] if ret else f.node), key='tables', why=why)
 
 
+def sim_spline_bc(ctx):
+    """The rules idealise the splines of generate_imu as exact derivative / antiderivative
+    operators; that is what interpolation with the default (not-a-knot) end conditions
+    approximates to full order at every sample.  Any other end condition ASSUMES something about
+    the motion at the ends of the record ('natural': zero second derivative, 'clamped': zero
+    first derivative, 'periodic') and is only second-order accurate there when it is not true."""
+    ctx.rule('SIM-SPLINE', 'the splines of generate_imu use the default not-a-knot end conditions '
+             '(no assumption about the motion at the ends of the record) and no extrapolation mode')
+    f = ctx.repo.function('sim.generate_imu')
+    ctx.touch(f)
+    n = 0
+    for c in ast.walk(f.node):
+        if not isinstance(c, ast.Call):
+            continue
+        q = f.module.resolve(c.func, f.local_names()) or ''
+        if q not in ('scipy.interpolate.CubicSpline', 'scipy.interpolate.CubicHermiteSpline',
+                     'scipy.interpolate.make_interp_spline', 'scipy.interpolate.Akima1DInterpolator',
+                     'scipy.interpolate.PchipInterpolator'):
+            continue
+        n += 1
+        ok, why = True, ''
+        if q.endswith(('Akima1DInterpolator', 'PchipInterpolator')):
+            ok, why = False, '%s is a lower-order, shape-preserving interpolant' % q.split('.')[-1]
+        for kw in c.keywords:
+            if kw.arg == 'bc_type':
+                try:
+                    v = ctx.repo.fold(kw.value, f.module)
+                except ValueError:
+                    v = None
+                if v != 'not-a-knot':
+                    ok, why = False, 'end condition bc_type=%s' % norm_text(kw.value)
+        if len(c.args) >= 4 and q.endswith('CubicSpline'):
+            ok, why = False, 'positional end condition / axis arguments `%s`' % norm_text(c)[:60]
+        ctx.ob('SIM-SPLINE', ok, None, '`%s` uses the default end conditions' % norm_text(c)[:60],
+               f=f, node=c, key='bc-%d' % n,
+               why='`%s`: %s - it assumes a property of the motion at the ends of the record; '
+                   'where the motion does not have it the interpolated positions / velocities are '
+                   'only second-order consistent near the ends, which the 6/dt amplification of '
+                   'the spline accelerations turns into a specific-force error in the first and '
+                   'last samples' % (norm_text(c)[:70], why))
+    ctx.floor('SIM-SPLINE', n, 3, 'spline constructions in generate_imu')
+
+
 # ----------------------------------------------------------------------- SIM-KIN
 from ..rotmodel import RotHooks, RotObj     # noqa: E402
 from ..nf import Rat                        # noqa: E402
